@@ -17,7 +17,7 @@ hprop.install(globals(), hprop.HistoryProperty(
           "non-trivial = >=1 pickup AND >=1 cancellation AND one of {two vehicles dispatched to one request, instruction attempted on "
           "a carrying vehicle, request expired while a vehicle was en route}; distinct = sha1(world, op log)"),
     assumptions=hprop.COMMON_ASSUMPTIONS,
-    quick=(16, 120, 40), thorough=(16, 2500, 70),
+    quick=(16, 120, 40), thorough=(16, 1200, 60),
     instr_bias={"restate": True, "kinds": [1, 1, 1, 1, 1, 0, 2, 3, 5, 6, 7, 8, 4], "vclasses": [0, 1, 2, 3, 3, 9, 9, 8], "tclasses": [0, 0, 1, 2, 7, 7, 4, 6]},
 ))
 FLOORS = {"quick": {"flag:pickup": 30, "flag:cancel": 50}, "thorough": {"flag:pickup": 500}}
